@@ -43,6 +43,11 @@ def shape_hash(snap):
     return seeds.H("shape", shape)
 
 
+# labels that describe an ordinary pre-state, not a fault: not counted as 'fault fired'
+BENIGN = {"id_valid", "ctor_with_parent", "is_child", "card_none", "to_none", "none_when_none",
+          "untyped_property", "same_parent", "rename_own"}
+
+
 def signature(monitor, op_name, labels):
     return "%s|%s|%s" % (monitor, op_name, ",".join(labels))
 
@@ -114,16 +119,17 @@ def run_session(prop, run_seed, profile, monitors, ops=None, known=None, own_tre
             post = U.snapshot() if guard is None or own_tree else None
             res.stats["steps"] += 1
             res.count("ops", op["op"])
+            faults = [lab for lab in labels if lab not in BENIGN]
             for lab in labels:
                 res.count("labels", lab)
             if outcome[0] == "exc":
                 res.stats["raised"] += 1
-                res.count("refusals", "%s|%s|%s" % (op["op"], ",".join(labels), outcome[1]))
+                res.count("refusals", "%s|%s|%s" % (op["op"], ",".join(faults), outcome[1]))
             if post is not None:
                 sh = shape_hash(post)
                 res.shapes.add(sh)
-                if labels:
-                    res.fault_shapes.add(sh)
+                if faults or outcome[0] == "exc":
+                    res.fault_shapes.add(seeds.H(sh, op["op"], faults, outcome[0]))
             res.log.append(jdump({
                 "step": step, "op": op, "labels": labels,
                 "outcome": [outcome[0], outcome[1]] if outcome[0] == "exc" else ["ret", outcome[1]],
